@@ -118,11 +118,61 @@ def install_choice_segments_contract(k, world):
     return restore
 
 
-def run_simulation(k, inst, targets=None, via_solve_model=False):
+def install_period_cut(k, world, S, skel):
+    """cut point at the head of simulate's period loop: from period 1 on, the loop-carried `states` are
+    replaced by arbitrary arrays of the right length whose discrete entries are valid labels (the invariant,
+    which the real next states must satisfy: an obligation per period).  Every period is then verified on its
+    own, for any incoming states."""
+    import z3
+
+    from pyvc.loops import CutSpec
+
+    S.incoming, S.used, S.outcome = {}, {}, {}
+
+    def inv(kk, vals):
+        st = vals["states"]
+        conds = []
+        for s_, _g in skel.states:
+            arr = st.get(s_)
+            if arr is None or not hasattr(arr, "zshape"):
+                return z3.BoolVal(False)
+            conds.append(arr.zshape[0] == S.n.e)
+            if skel.is_disc(s_):
+                i = z3.Int(f"inv.{s_}.{kk}")
+                conds.append(z3.ForAll([i], z3.Implies(z3.And(i >= 0, i < S.n.e), z3.And(arr.get((i,)) >= 0, arr.get((i,)) < skel.n_labels(s_)))))
+        return z3.And(*conds)
+
+    def havoc(kk, vals):
+        S.incoming[kk] = vals["states"]
+        if kk == 0:
+            S.used[0] = vals["states"]
+            return None
+        new = {}
+        for s_ in vals["states"]:
+            new[s_] = k.array(f"S{kk}.{s_}", [S.n], "int" if skel.is_disc(s_) else "float")
+        S.used[kk] = new
+        return {"states": new}
+
+    S.period = {}
+
+    def after(kk, vals):
+        S.outcome[kk] = vals["states"]
+        S.period[kk] = {"value": vals["value"], "choices": vals["choices"]}
+
+    world.loop_specs[("lcm.simulate.simulate", 0)] = CutSpec(["states"], havoc, inv, after, name="simulate-period-loop", observe=("value", "choices"))
+
+    def restore():
+        world.loop_specs.pop(("lcm.simulate.simulate", 0), None)
+
+    return restore
+
+
+def run_simulation(k, inst, targets=None, via_solve_model=False, cut=True):
     """the real get_lcm_function(model, 'simulate') and the real simulate on symbolic inputs"""
     skel = inst.skel
     S = Sim()
     S.skel = skel
+    S.cut = False
     sym = k.mode != "native"
     restores = []
     if sym:
@@ -191,6 +241,9 @@ def run_simulation(k, inst, targets=None, via_solve_model=False):
         S.vf = vf
         seed = k.int("seed", ge=0, le=5)
         S.seed = seed
+        if sym and cut:
+            restores.append(install_period_cut(k, k.world, S, skel))
+            S.cut = True
         feasible_choice_exists(k, S)
         kwargs = dict(initial_states=init, additional_targets=targets, seed=seed)
         if via_solve_model:
@@ -227,11 +280,23 @@ def _column(k, frame, name):
 
 
 def _states_at(k, S, t, i):
+    """agent i's states in period t: the period's own arrays when the loop is cut (C13.panel proves that the
+    frame rows are these entries), else the frame row"""
+    if getattr(S, "cut", False):
+        return {s: k.at(S.used[t][s], (i,)) for s, _ in S.skel.states}
     return {s: k.at(S.col(s), (S.pos(t, i),)) for s, _ in S.skel.states}
 
 
 def _choices_at(k, S, t, i):
+    if getattr(S, "cut", False):
+        return {c: k.at(S.period[t]["choices"][c], (i,)) for c, _ in S.skel.choices}
     return {c: k.at(S.col(c), (S.pos(t, i),)) for c, _ in S.skel.choices}
+
+
+def _value_at(k, S, t, i):
+    if getattr(S, "cut", False):
+        return k.at(S.period[t]["value"], (i,))
+    return k.at(S.col("value"), (S.pos(t, i),))
 
 
 def feasible_choice_exists(k, S):
@@ -315,6 +380,13 @@ def panel_contract(k, inst):
     for t in range(T):
         for (i,) in k.indices([n], name=f"agent{t}_"):
             k.ensures("period-column", L.eq(k.at(S.col("_period"), (S.pos(t, i),)), t))
+            if S.cut:
+                # row (t, i) of the frame is entry i of what period t computed (value, choices) and ran on (states)
+                k.ensures("row-holds-the-period's-value", L.eq(k.at(S.col("value"), (S.pos(t, i),)), k.at(S.period[t]["value"], (i,))))
+                for c, _ in skel.choices:
+                    k.ensures(f"row-holds-the-period's-choices[{c}]", L.eq(k.at(S.col(c), (S.pos(t, i),)), k.at(S.period[t]["choices"][c], (i,))))
+                for s_, _ in skel.states:
+                    k.ensures(f"row-holds-the-period's-states[{s_}]", L.eq(k.at(S.col(s_), (S.pos(t, i),)), k.at(S.used[t][s_], (i,))))
     for (i,) in k.indices([n], name="agent_init_"):
         for s, _ in skel.states:
             k.ensures(f"period-0-states-are-the-initial-states[{s}]", L.eq(k.at(S.col(s), (S.pos(0, i),)), k.at(S.init[s], (i,))))
@@ -336,11 +408,19 @@ def law_of_motion_contract(k, inst):
     feasible_choice_exists(k, S)
     skel, n, T = S.skel, S.n, S.skel.n_periods
     stoch = skel.stochastic_states()
+    if S.cut:
+        for t in range(T - 1):
+            k.ensures(f"period-{t + 1}-starts-from-the-states-computed-in-period-{t}", S.incoming.get(t + 1) is S.outcome.get(t) and S.outcome.get(t) is not None)
+            for (i,) in k.indices([n], name=f"row{t}_"):
+                for s, _ in skel.states:
+                    k.ensures(f"row-of-period-{t + 1}-holds-the-states-the-period-ran-on[{s}]", L.eq(k.at(S.col(s), (S.pos(t + 1, i),)), k.at(S.used[t + 1][s], (i,))))
     for t in range(T - 1):
         for (i,) in k.indices([n], name=f"agent{t}_"):
             env = {**_states_at(k, S, t, i), **_choices_at(k, S, t, i), "_period": t}
             for s, _ in skel.states:
-                new = k.at(S.col(s), (S.pos(t + 1, i),))
+                # symbolic: the states computed at the end of iteration t (the loop-carried value that
+                # iteration t + 1 starts from: checked below); native: the row of period t + 1
+                new = k.at(S.outcome[t][s], (i,)) if S.cut else k.at(S.col(s), (S.pos(t + 1, i),))
                 if s not in stoch:
                     want = spec_eval(k, S.b, "next_" + s, env, S.P)
                     k.ensures(f"next-state-is-transition-function-of-own-period-t-row[{s}]", k.close(new, want))
@@ -399,7 +479,7 @@ def decisions_contract(k, inst):
         for (i,) in k.indices([n], name=f"agent{t}_"):
             states = _states_at(k, S, t, i)
             chosen = _choices_at(k, S, t, i)
-            value = k.at(S.col("value"), (S.pos(t, i),))
+            value = _value_at(k, S, t, i)
             for c in choice_vars:
                 size = k.shape(S.im.grids[c])[0]
                 k.ensures(f"reported-choice-is-a-grid-value[{c},t={t}]", L.exists([size], lambda j, c=c: L.eq(chosen[c], k.at(S.im.grids[c], j))))
@@ -504,7 +584,7 @@ def key_discipline_contract(k, inst):
     from pyvc.values import T
     from pyvc.vc import _symbols
 
-    S = run_simulation(k, inst)
+    S = run_simulation(k, inst, cut=False)
     if isinstance(S, Raised):
         k.fail("simulation-runs", repr(S))
         return
